@@ -197,7 +197,9 @@ def run_case(case, rep, record=True):
                 rep.count("sibling-document-loaded-first")
         try:
             try:
-                scn = nasim.load_scenario(path)
+                # (now and then under the name of a shipped benchmark: a name is only a name)
+                nm = [None, None, "tiny", "medium", "small-linear"][(len(doc["subnets"]) + len(doc["exploits"]) + case.get("rotate", 0)) % 5]
+                scn = nasim.load_scenario(path, name=nm) if nm else nasim.load_scenario(path)
             except Exception as e:
                 raise Failure("C17:rejected", f"valid document rejected: {type(e).__name__}: {str(e)[:300]}",
                               bucket=f"C17:rejected:{type(e).__name__}:{_norm_msg(str(e))}")
